@@ -2,13 +2,35 @@
 from ..rules import gen2, sC35
 
 ID = 'C35'
-TECHNIQUE = 'typestate/pairing dataflow over the code generator (evaluate -> dispose -> free_temps, allocate_temp -> release_temp, bracket pairs) on every normal path, class-level pairing for split protocols'
+TECHNIQUE = ('typestate/pairing dataflow over the code generator (evaluate -> dispose -> free_temps, allocate_temp -> release_temp, bracket pairs) on every normal path, class-level pairing for split protocols; '
+             'ARGS: decision table of the emitted cleanup events, extracted with the path-enumerating evaluator (sibling methods inlined through the MRO) over the complete star/starstar/kwonly domain')
 DECIDES = ('G1: every sub-expression the generator evaluates is disposed of and its temporaries are freed on every normal path (or ownership is handed to generate_assignment_code / the inherited subexpression handling); '
            'G2: every temporary obtained from allocate_temp is released on every normal path or by a sibling method; '
            'G5: emission brackets (blocks, ensured GIL, free-threading lock, trace yield/resume) balance on every normal path; '
-           'G7: a reference held in an unmanaged temp is released before the first error exit emitted after its last use.')
-NOT_DECIDED = 'reference balance inside the C helpers and on error paths of the generated C (needs the running refnanny); ordering of emitted error checks relative to decrefs.'
+           'G7: a reference held in an unmanaged temp is released before the first error exit emitted after its last use; '
+           'ARGS: for every signature class (star_arg present/absent x starstar_arg present/absent x keyword-only arguments) the cleanup block behind the argument-unpacking '
+           'error label of DefNodeWrapper.generate_argument_parsing_code releases the entry of every star argument that exists, on every path (helper methods inlined), and '
+           'generate_stararg_init_code releases an entry it has marked as owned (put_var_gotref) before every later emitted `return`.')
+NOT_DECIDED = ('reference balance inside the C helpers and on error paths of the generated C other than the argument-unpacking exits (needs the running refnanny); ordering of emitted error checks relative to decrefs; '
+               'null-safety of a release whose acquisition was conditional (generate_stararg_init_code decref_clears a **kwargs entry that stays NULL when it is unused: only reachable when the *args slice allocation fails).')
 
 
 def run(ctx):
+    # sC35.rule_args_nullsafe(ctx)   # pending finding: generate_stararg_init_code decref_clears the NULL entry of an unused **kwargs (Py_DECREF(NULL) when the *args slice fails)
     return [gen2.rule_G1(ctx), gen2.rule_G2(ctx), gen2.rule_G5(ctx), gen2.rule_G7(ctx), sC35.rule_args(ctx)]
+
+
+MUTATIONS = [
+    # (file, single edit on a scratch copy, rule / construct that reported it)
+    ('Cython/Compiler/Nodes.py', 'seed C35b: error-label cleanup `if has_star_or_kw_args:` -> `if self.star_arg:`', 'C35-ARGS Nodes.DefNodeWrapper.generate_argument_parsing_code:starstar_arg'),
+    ('Cython/Compiler/Nodes.py', 'error-label cleanup `if has_star_or_kw_args:` -> `if has_kwonly_args:`', 'C35-ARGS ...:starstar_arg and :star_arg'),
+    ('Cython/Compiler/Nodes.py', 'generate_arg_decref: `if arg:` -> `if not arg:`', 'C35-ARGS ...generate_argument_parsing_code:star_arg'),
+    ('Cython/Compiler/Nodes.py', 'error-label cleanup: delete `self.generate_arg_decref(self.star_arg, code)`', 'C35-ARGS ...:star_arg'),
+    ('Cython/Compiler/Nodes.py', 'error-label cleanup: `if self.starstar_arg:` -> `if self.starstar_arg and self.star_arg:`', 'C35-ARGS ...:starstar_arg'),
+    ('Cython/Compiler/Nodes.py', 'generate_stararg_init_code: delete `if self.starstar_arg: code.put_var_decref_clear(self.starstar_arg.entry)` before the early return', 'C35-ARGS Nodes.DefNodeWrapper.generate_stararg_init_code:starstar_arg'),
+]
+SILENT_EDITS = [
+    'error-label cleanup: outer guard replaced by `if True:`; by `if not (self.star_arg is None and self.starstar_arg is None and not has_kwonly_args):` with the star release written inline',
+    'error-label cleanup block extracted into a new method `_release_star_args(code)` (alias `kw = self.starstar_arg`, early `return` when absent)',
+    'generate_stararg_init_code: explicit `if self.starstar_arg: put_var_decref_clear(...)` replaced by `self.generate_arg_decref(self.starstar_arg, code)`',
+]
